@@ -3,7 +3,7 @@
 // This source code is licensed under the MIT license found in the
 // LICENSE file in the root directory of this source tree.
 
-use alloc::vec::Vec;
+use alloc::{string::ToString, vec::Vec};
 use core::cmp;
 
 use fri::FriOptions;
@@ -326,17 +326,48 @@ impl Deserializable for ProofOptions {
     /// # Errors
     /// Returns an error of a valid proof options could not be read from the specified `source`.
     fn read_from<R: ByteReader>(source: &mut R) -> Result<Self, DeserializationError> {
+        let num_queries = source.read_u8()? as usize;
+        let blowup_factor = source.read_u8()? as usize;
+        let grinding_factor = source.read_u8()? as u32;
+        let field_extension = FieldExtension::read_from(source)?;
+        let fri_folding_factor = source.read_u8()? as usize;
+        let fri_remainder_max_degree = source.read_u8()? as usize;
+        let batching_constraints = BatchingMethod::read_from(source)?;
+        let batching_deep = BatchingMethod::read_from(source)?;
+        let num_partitions = source.read_u8()? as usize;
+        let hash_rate = source.read_u8()? as usize;
+
+        // the constructors panic on invalid parameters; untrusted input must result in an error
+        let valid = num_queries > 0
+            && num_queries <= MAX_NUM_QUERIES
+            && blowup_factor.is_power_of_two()
+            && blowup_factor >= MIN_BLOWUP_FACTOR
+            && blowup_factor <= MAX_BLOWUP_FACTOR
+            && grinding_factor <= MAX_GRINDING_FACTOR
+            && fri_folding_factor.is_power_of_two()
+            && fri_folding_factor >= FRI_MIN_FOLDING_FACTOR
+            && fri_folding_factor <= FRI_MAX_FOLDING_FACTOR
+            && (fri_remainder_max_degree + 1).is_power_of_two()
+            && fri_remainder_max_degree <= FRI_MAX_REMAINDER_DEGREE
+            && (1..=16).contains(&num_partitions)
+            && hash_rate >= 1;
+        if !valid {
+            return Err(DeserializationError::InvalidValue(
+                "invalid proof options".to_string(),
+            ));
+        }
+
         let result = ProofOptions::new(
-            source.read_u8()? as usize,
-            source.read_u8()? as usize,
-            source.read_u8()? as u32,
-            FieldExtension::read_from(source)?,
-            source.read_u8()? as usize,
-            source.read_u8()? as usize,
-            BatchingMethod::read_from(source)?,
-            BatchingMethod::read_from(source)?,
+            num_queries,
+            blowup_factor,
+            grinding_factor,
+            field_extension,
+            fri_folding_factor,
+            fri_remainder_max_degree,
+            batching_constraints,
+            batching_deep,
         );
-        Ok(result.with_partitions(source.read_u8()? as usize, source.read_u8()? as usize))
+        Ok(result.with_partitions(num_partitions, hash_rate))
     }
 }
 
